@@ -248,6 +248,50 @@ def metamorphic(ctx, report, sm, rng):
             ctx.violation(f"metrics change under {label}", {"setmap": [[sorted(s), c] for s, c in setmap.items()], "transform": label, "ren": ren})
 
 
+def clustering_case(ctx, report, sm, scratch):
+    """the distance matrix printed by the clustering report: cell (p, q) is the Jaccard distance of p and q to two decimals"""
+    import io
+
+    setmap = {}
+    for k, c in sm:
+        setmap[frozenset(k)] = setmap.get(frozenset(k), 0) + c
+    want = oracle(sm, [])
+    plats = want["plats"]
+    if len(plats) < 2 or any(d is None for row in want["matrix"] for d in row):
+        return
+    case = {"setmap": [[list(k), c] for k, c in sm], "origin": "clustering-report", "report": "clustering"}
+    buf = io.StringIO()
+    try:
+        report.clustering(str(scratch / "dendrogram.png"), setmap, stream=buf)
+    except Exception as e:  # noqa
+        ctx.violation(f"clustering report raises {type(e).__name__}: {e}", case)
+        return
+    finally:
+        try:
+            from matplotlib import pyplot as _plt
+            _plt.close("all")   # the report leaves its figure open; the harness makes hundreds of them
+        except Exception:  # noqa
+            pass
+    ctx.count(key=f"clustering-report:platforms={len(plats)}")
+    rows = [[c.strip() for c in ln.strip().strip("│").split("│")] for ln in buf.getvalue().splitlines() if ln.strip().startswith("│")]
+    if not rows or rows[0][1:] != plats or [r[0] for r in rows[1:]] != plats:
+        ctx.corr_break("clustering-report layout", case, rows[:2], {"header": plats})
+        return
+    bad = []
+    for i, p in enumerate(plats):
+        for j, q in enumerate(plats):
+            try:
+                cell = Fraction(rows[1 + i][1 + j])
+            except (ValueError, IndexError):
+                bad.append(f"cell ({p},{q}) is {rows[1 + i][1 + j:2 + j]}")
+                continue
+            if abs(cell - want["matrix"][i][j]) > Fraction(5, 1000) + Fraction(TOL):
+                bad.append(f"printed distance({p},{q}) = {rows[1 + i][1 + j]}, the Jaccard distance of their line sets is {want['matrix'][i][j]} "
+                           f"= {float(want['matrix'][i][j]):.4f}")
+    if bad:
+        ctx.violation("clustering report: " + "; ".join(bad[:3]), case)
+
+
 def tables_exhaustive(nplat, counts):
     names = NAMES[:nplat]
     subsets = [tuple(s) for r in range(nplat + 1) for s in itertools.combinations(names, r)]
@@ -310,6 +354,14 @@ def run(ctx, drv):
             metamorphic(ctx, report, sm, ctx.rng)
         if i % 4 == 1:
             history(ctx, report, sm, ctx.rng)
+    # the clustering report's printed distance matrix (2-7 platforms, distinct pair distances)
+    with core.Scratch() as scratch:
+        for i in range(ctx.n(40, 400)):
+            names = NAMES[: ctx.rng.choice([2, 3, 4, 4, 5, 5, 6, 7])]
+            sm = [([p], ctx.rng.randint(1, 9)) for p in names]
+            for _ in range(ctx.rng.randint(2, 10)):
+                sm.append(([p for p in names if ctx.rng.random() < 0.5], ctx.rng.choice([0, 1, 2, 3, 5, 10, 40])))
+            clustering_case(ctx, report, sm, scratch)
 
 
 def search(ctx, drv):
@@ -321,6 +373,11 @@ def replay(ctx, drv, case):
     from codebasin import report
 
     sm = [(k, n) for k, n in case["setmap"]]
+    if case.get("report") == "clustering":
+        c2 = core.Ctx(ctx.prop, "quick", 0)
+        with core.Scratch() as scratch:
+            clustering_case(c2, report, sm, scratch)
+        return {"violations": [w for w, _ in c2.violations], "definition": oracle(sm, [])}
     got, _ = impl(report, sm, case.get("platforms", []))
     out = {"implementation": got, "definition": oracle(sm, case.get("platforms", []))}
     if drv is not None:
